@@ -320,7 +320,11 @@ def run(chk, prog, tier):
                     "%s %s" % (n["type"]["qualType"], n["name"]))
     chk.floor("mutable statics", len(muts), 2)
     from checks import C17
-    n = C17.atomic_rule(chk, prog, [roles.room_check])
+    # the room check and the static helpers it reaches (growth may live in a helper of its own)
+    lib = prog.lib_functions()
+    rc_fns = sorted(fn for fn in EFF.reachable(roles.g, [roles.room_check]) if fn in lib and
+                    (fn == roles.room_check or lib[fn].get("storageClass") == "static"))
+    n = C17.atomic_rule(chk, prog, rc_fns)
     chk.floor("failing returns of the room check", n, 2)
     errno_rule(chk, prog)
     setter_history_rule(chk, prog, setters)
